@@ -1,8 +1,11 @@
 import Ruint.Model.BitsRev
+import Ruint.Gen.WordsUint
 /-! Driver for C06: evaluates the model (`Ruint.Bits.*` on limb lists) and the spec (ℕ arithmetic:
 `Nat.testBit`, `Nat.log2`, `&&&`/`|||`/`^^^` on GMP naturals — none of it shares code with the model). -/
 open Ruint Ruint.Bits
 
+/-! The model column of `not`, `lz`, `lo`, `cnt1`, `cnt0`, `bitlen`, `bytelen`, `bit`, `setbit` runs the methods GENERATED
+    from `src/bits.rs` (`Props/C06.gen_*_eq` proves them equal to the model the theorems are about). -/
 namespace Ruint.DrvC06
 
 def u (bits : Nat) (s : String) : List Nat := toLimbs (nlimbs bits) (parseHex s)
@@ -36,16 +39,16 @@ def handle (args : List String) (_impl : String) : String × String :=
     let x := parseHex as
     let m := 2 ^ bits
     match op with
-    | "not" | "notop" | "notref" => (out (Bits.not bits a), toHex (m - 1 - x))
+    | "not" | "notop" | "notref" => (out (Ruint.Gen.uint_not (nlimbs bits + 1) bits (nlimbs bits) a), toHex (m - 1 - x))
     | "rev" => (out (reverseBits bits a), toHex (revNat bits x))
-    | "lz" => (toHex (leadingZeros bits a), toHex (bits - size x))
-    | "lo" => (toHex (leadingOnes bits a), toHex (bits - size (m - 1 - x)))
+    | "lz" => (toHex (Ruint.Gen.uint_leading_zeros (nlimbs bits + 1) bits (nlimbs bits) a), toHex (bits - size x))
+    | "lo" => (toHex (Ruint.Gen.uint_leading_ones (nlimbs bits + 1) bits (nlimbs bits) a), toHex (bits - size (m - 1 - x)))
     | "tz" => (toHex (trailingZeros bits a), toHex (if x = 0 then bits else tzNat x))
     | "to" => (toHex (trailingOnes bits a), toHex (tzNat (x + 1)))
-    | "cnt1" => (toHex (countOnes a), toHex (popNat (bits + 1) x))
-    | "cnt0" => (toHex (countZeros bits a), toHex (bits - popNat (bits + 1) x))
-    | "bitlen" => (toHex (bitLen bits a), toHex (size x))
-    | "bytelen" => (toHex (byteLen bits a), toHex ((size x + 7) / 8))
+    | "cnt1" => (toHex (Ruint.Gen.uint_count_ones (nlimbs bits + 1) bits (nlimbs bits) a), toHex (popNat (bits + 1) x))
+    | "cnt0" => (toHex (Ruint.Gen.uint_count_zeros (nlimbs bits + 1) bits (nlimbs bits) a), toHex (bits - popNat (bits + 1) x))
+    | "bitlen" => (toHex (Ruint.Gen.uint_bit_len (nlimbs bits + 1) bits (nlimbs bits) a), toHex (size x))
+    | "bytelen" => (toHex (Ruint.Gen.uint_byte_len (nlimbs bits + 1) bits (nlimbs bits) a), toHex ((size x + 7) / 8))
     | "msb" =>
       let r := mostSignificantBits a
       let e := size x - 64
@@ -70,7 +73,7 @@ def handle (args : List String) (_impl : String) : String × String :=
     else
       let i := parseHex cs
       match op with
-      | "bit" => (boolStr (bit bits a i), boolStr (decide (i < bits) && x.testBit i))
+      | "bit" => (boolStr (Ruint.Gen.uint_bit bits (nlimbs bits) a i), boolStr (decide (i < bits) && x.testBit i))
       | "byte" => (outON "panic" (byte bits a i),
           if i < (bits + 7) / 8 then toHex (x / 256 ^ i % 256) else "panic")
       | "cbyte" => (outON "none" (checkedByte bits a i),
@@ -82,7 +85,7 @@ def handle (args : List String) (_impl : String) : String × String :=
     let x := parseHex as
     let i := parseHex is
     let v := vs = "t"
-    (out (setBit bits a i v),
+    (out (Ruint.Gen.uint_set_bit bits (nlimbs bits) a i v),
      toHex (if i < bits then (if v then x ||| 2 ^ i else x - (if x.testBit i then 2 ^ i else 0)) else x))
   | _ => ("bad-op", "bad-op")
 
